@@ -10,7 +10,7 @@ package postfinance
 // account, in the currency of the statement; any other record ends the booking section and adds nothing.
 // The function is quiet: nothing is written to the process's standard output (the journal is printed by
 // the caller, and only the journal).
-//@ def wfParserPF(p *Parser) bool := p != nil && p.reader != nil && p.registry != nil && p.registry.accounts != nil && wfBuilder(p.builder) && validAccount(p.account) && p.currency != nil
+//@ def wfParserPF(p *Parser) bool := p != nil && p.reader != nil && p.registry != nil && wfAccounts(p.registry.accounts) && wfBuilder(p.builder) && validAccount(p.account) && p.currency != nil
 //
 //@ func parseAmount
 //@   modifies nothing
@@ -43,7 +43,7 @@ package postfinance
 // parse: the currency of every booking is the one the statement's header names ("Währung:" line, looked up
 // by its exact text without the ="..." wrapping), CHF only when the header has no such line.
 //@ func (*Parser).parse
-//@   requires p != nil && p.reader != nil && p.registry != nil && p.registry.accounts != nil && wfCommodities(p.registry.commodities)
+//@   requires p != nil && p.reader != nil && p.registry != nil && wfAccounts(p.registry.accounts) && wfCommodities(p.registry.commodities)
 //@        && p.registry.accounts.index != p.registry.commodities.index && wfBuilder(p.builder) && validAccount(p.account)
 //@   modifies p.currency, p.registry.commodities.index[*], fields(p.reader), p.registry.accounts.index[*], p.builder.days[*], p.builder.min, p.builder.max, fields(p.builder.days[p.builder.min]), elems(p.builder.days[p.builder.min].Prices), elems(p.builder.days[p.builder.min].Openings), elems(p.builder.days[p.builder.min].Transactions), elems(p.builder.days[p.builder.min].Assertions), elems(p.builder.days[p.builder.min].Closings)
 //@   panics
